@@ -11,7 +11,7 @@
    9153c3e (MaintenanceInfo.from_json ignores unknown entry fields), 450b7bb (Gateway.from_json: no labels => absent), 2623e10 (update copies lists). *)
 From Coq Require Import String List NArith ZArith Bool Permutation.
 From FIM Require Import Base.Str Base.Json Base.JsonRT Gen.CodecGen Model.CodecField Model.CodecMisc Model.CodecWf
-     Model.CodecChk Proofs.CodecAssoc Proofs.CodecTables Proofs.CodecFieldRT Proofs.CodecMiscRT Proofs.CodecGateway.
+     Model.CodecChk Proofs.CodecAssoc Proofs.CodecTables Proofs.CodecFieldRT Proofs.CodecMiscRT Proofs.CodecGateway Proofs.CodecDecode.
 Import ListNotations.
 
 (* ---------------------------------------------------------------- tables *)
@@ -254,7 +254,95 @@ Theorem C03_tuple_trailing_space_refuted : exists cat t u, ttuple_wf cat t = tru
 Proof. exact tt_trailing_space_refuted. Qed.
 Print Assumptions C03_tuple_trailing_space_refuted.
 
+(* ---------------------------------------------------------------- decode side: accepted language, closure, idempotence *)
+(* EXACTLY the texts a JSONField class decodes to a value: not absent, a JSON object (any whitespace and key order; a
+   repeated key counts with its last value; unknown keys ignored) whose known members all carry a value the class accepts;
+   the value is the defaults overwritten in text order by the known members.  A decoder that accepted more, or less, or
+   built the value differently would make this statement false. *)
+Theorem C03_field_accepted_language : forall V c t y,
+  from_json V c (Some t) = Ok (Some y) <->
+  absent_text t = false /\ exists d, jparse t = Some (JObj d)
+    /\ (forall k v, In (k, v) (filter (known_key c) d) -> elem_ok V c k v = true)
+    /\ y = aset_all (filter (known_key c) d) (jc_fields c).
+Proof. exact field_decode_iff. Qed.
+Print Assumptions C03_field_accepted_language.
+
+(* everything decodable (from a text without lone surrogates whose member values hold no dict) is semi_wf: every field is
+   the default or a value the class accepts *)
+Theorem C03_field_decode_closed : forall V c t j y, In c gen_classes -> jparse t = Some j -> jwfb j = true ->
+  flat_obj j = true -> from_json V c (Some t) = Ok (Some y) -> semi_wf V c y = true.
+Proof. exact (fun V c t j y H => field_decode_closed V c t j y (classes_ok V c H)). Qed.
+Print Assumptions C03_field_decode_closed.
+
+(* encode / decode of ANY accepted value (also Capacities with None/False fields) gives the normalised value ... *)
+Theorem C03_field_reencode_any_accepted_value : forall V c o, In c gen_classes -> semi_wf V c o = true ->
+  from_json V c (Some (to_json c o)) = Ok (if nothing_kept c o && jc_json_blank c then None else Some (norm_obj c o)).
+Proof. exact (fun V c o H => field_reencode V c o (classes_ok V c H)). Qed.
+Print Assumptions C03_field_reencode_any_accepted_value.
+
+(* ... so encode . decode . encode = encode for ALL of them (canonical text), *)
+Theorem C03_field_canonical_any_accepted_value : forall V c o y, In c gen_classes -> semi_wf V c o = true ->
+  from_json V c (Some (to_json c o)) = Ok (Some y) -> to_json c y = to_json c o.
+Proof. exact (fun V c o y H => field_canonical_all V c o y (classes_ok V c H) (norm_stable_ok c H)). Qed.
+Print Assumptions C03_field_canonical_any_accepted_value.
+
+(* ... and decode t = y implies decode (encode y) = normalised y, which is y itself wherever the drop rule is lossless *)
+Theorem C03_field_decode_reencode : forall V c t j y, In c gen_classes -> jparse t = Some j -> jwfb j = true ->
+  flat_obj j = true -> from_json V c (Some t) = Ok (Some y) ->
+  from_json V c (Some (to_json c y)) = Ok (if nothing_kept c y && jc_json_blank c then None else Some (norm_obj c y)).
+Proof. exact (fun V c t j y H => field_decode_reencode V c t j y (classes_ok V c H)). Qed.
+Print Assumptions C03_field_decode_reencode.
+
+Theorem C03_field_decode_reencode_lossless : forall V c t j y, In c gen_classes -> jc_name c <> n_capacities ->
+  jparse t = Some j -> jwfb j = true -> flat_obj j = true -> from_json V c (Some t) = Ok (Some y) ->
+  from_json V c (Some (to_json c y)) = Ok (if nothing_kept c y && jc_json_blank c then None else Some y).
+Proof. exact (fun V c t j y H N => field_decode_reencode_lossless V c t j y (classes_ok V c H) (drop_rule_lossless c H N)). Qed.
+Print Assumptions C03_field_decode_reencode_lossless.
+
+Theorem C03_tags_decode_closed : forall VT t j l, jparse t = Some j -> jwfb j = true ->
+  tags_from_json VT (Some t) = Ok (Some l) ->
+  tags_wf VT l = true /\ tags_from_json VT (Some (tags_to_json l)) = Ok (Some l).
+Proof. exact tags_decode_closed. Qed.
+Print Assumptions C03_tags_decode_closed.
+
+Theorem C03_jsondata_text_kept_verbatim : forall mx exn s t, jd_make mx exn (JDText s) = Ok t -> t = s /\ jparse s <> None.
+Proof. exact jd_text_kept_verbatim. Qed.
+Print Assumptions C03_jsondata_text_kept_verbatim.
+
+(* PathInfo / ERO: whatever decodes (also an unknown type string, a Graph payload of any JSON kind) re-encodes to a text
+   that decodes to the same value -- or to absent when the decoded value has nothing set ("payload": null) *)
+Theorem C03_pathinfo_decode_reencode : forall ero j p, jwfb j = true -> pi_of_jv ero j = Ok (Some p) ->
+  exists s, pi_to_json p = Ok s /\ pi_from_json ero (Some s) = Ok (if pinfo_nothing p then None else Some p).
+Proof. exact pi_decode_reencode. Qed.
+Print Assumptions C03_pathinfo_decode_reencode.
+
+Theorem C03_maint_decode_closed : forall VISO j m, jwfb j = true -> mi_of_jv VISO j = Ok (Some m) ->
+  minfo_wf VISO m = true /\ mi_lock m = true /\
+  exists s, mi_to_json m = Ok s /\ mi_from_json VISO (Some s) = Ok (Some m).
+Proof. exact maint_decode_closed. Qed.
+Print Assumptions C03_maint_decode_closed.
+
+Theorem C03_tuple_decode_closed : forall cat s t, tt_fromstring cat s = Ok t ->
+  ttuple_wf cat t = true /\ tval_plain (tt_val t) = true.
+Proof. exact tt_decode_closed. Qed.
+Print Assumptions C03_tuple_decode_closed.
+
+Theorem C03_tuple_decode_reencode : forall cat s t, tuple_vocab_ok = true -> tt_fromstring cat s = Ok t ->
+  tt_fromstring cat (tt_string t) = Ok t.
+Proof. exact tt_decode_reencode. Qed.
+Print Assumptions C03_tuple_decode_reencode.
+
 (* ---------------------------------------------------------------- non-vacuity *)
+Example C03_nonvacuous_decode_side :
+  let t := S"{""zz"": [1], ""ram"": 1, ""core"": null,  ""ram"": 2}" in
+  let y := aset (S"ram") (JInt 2) (aset (S"core") JNull (jc_fields cls_Capacities)) in
+  from_json VA cls_Capacities (Some t) = Ok (Some y) /\ semi_wf VA cls_Capacities y = true /\
+  wf_obj VA cls_Capacities y = false /\ norm_obj cls_Capacities y = aset (S"ram") (JInt 2) (jc_fields cls_Capacities) /\
+  to_json cls_Capacities y = S"{""ram"": 2}" /\
+  from_json VA cls_Capacities (Some (to_json cls_Capacities y)) = Ok (Some (norm_obj cls_Capacities y)).
+Proof. vm_compute. repeat split. Qed.
+
+
 Example C03_nonvacuous_json :
   let v := JObj [(S"b", JArr [JInt (-5); JFloat (S"0.0"); JNull; JObj [(S"z", JBool true); (S"a", JStr [233; 128512; 34; 10])]]);
                  (S"a", JFloat (S"1e+22"))] in
